@@ -97,8 +97,24 @@ fn fnv(bytes: &[u8]) -> u64 {
     h
 }
 
+/// Hash of the serde tree with every number reduced modulo p: field equality, not representation
+/// equality (an element may legitimately be held as `p` instead of `0` by one build's arithmetic).
 fn json_hash<T: Serialize>(t: &T) -> u64 {
-    fnv(serde_json::to_string(t).unwrap().as_bytes())
+    fn canon(v: &mut serde_json::Value) {
+        match v {
+            serde_json::Value::Number(n) => {
+                if let Some(x) = n.as_u64() {
+                    *v = serde_json::Value::from(x % crate::gen::field::P);
+                }
+            }
+            serde_json::Value::Array(a) => a.iter_mut().for_each(canon),
+            serde_json::Value::Object(m) => m.values_mut().for_each(canon),
+            _ => {}
+        }
+    }
+    let mut v = serde_json::to_value(t).unwrap();
+    canon(&mut v);
+    fnv(serde_json::to_string(&v).unwrap().as_bytes())
 }
 
 fn plonk_record<C: GenericConfig<D, F = F>>(raw: &RawCircuit) -> Result<(Record, ProofWithPublicInputs<F, C, D>), String> {
@@ -141,6 +157,13 @@ fn stark_record<const COLS: usize, const PIS: usize>(el: &ElabStark) -> Result<(
     )
     .map_err(|e| format!("stark prove failed: {:#}", e))?;
     verify_stark_proof(stark, proof.clone(), &el.config, None).map_err(|e| format!("honest stark proof rejected: {:#}", e))?;
+    if std::env::var("PV_TRACE").is_ok() {
+        eprintln!("[trace] labels {:?} roles {:?} config {:?}", el.labels, el.roles, el.config);
+        eprintln!("[trace] local {:?}", proof.proof.openings.local_values);
+        eprintln!("[trace] next {:?}", proof.proof.openings.next_values);
+        eprintln!("[trace] quotient {:?}", proof.proof.openings.quotient_polys);
+        eprintln!("[trace] constraints {:?}", el.def.constraints);
+    }
     Ok((
         json_hash(&proof.proof.trace_cap),
         json_hash(&proof.proof.quotient_polys_cap),
